@@ -275,6 +275,8 @@ class HttpParser:
                     self.state == httpParserStates.LINE_RCVD and \
                     raw == CRLF:
                 self.state = httpParserStates.COMPLETE
+                # Blank line belongs to the response, it is not a remainder
+                raw = memoryview(b'')
             # Mark request as complete if headers received and no incoming
             # body indication received.
             elif self.state == httpParserStates.HEADERS_COMPLETE and \
